@@ -400,7 +400,7 @@ func exec(c *core.Ctx, cs Case) {
 	for t, p := range cs.Progs {
 		calls := make([]string, len(p))
 		for i, call := range p {
-			calls[i] = core.Pair(core.Z(call.Steps), core.ZList(call.Res))
+			calls[i] = "(" + core.Z(call.Steps) + "," + core.ZList(call.Res) + ",false)"
 		}
 		progs[t] = core.List(calls)
 	}
@@ -444,10 +444,12 @@ func execExit(c *core.Ctx, cs Case) {
 		who = append(who, id)
 		mu.Unlock()
 	}
+	var ret0 []int // what the first caller's own Do returned (stays nil when it left by panic / Goexit)
+	var returnedEarly int64
 	go func() {
 		defer close(done0)
 		defer func() { recover() }()
-		d.Do(func() []int {
+		ret0 = d.Do(func() []int {
 			note(0)
 			close(entered)
 			<-gate
@@ -472,6 +474,7 @@ func execExit(c *core.Ctx, cs Case) {
 	rets := make([][]int, total)
 	caller := func(id int, wg *sync.WaitGroup) {
 		defer wg.Done()
+		defer atomic.AddInt64(&returnedEarly, 1)
 		rets[id-1] = d.Do(func() []int {
 			note(id)
 			r := make([]int, cs.Arity)
@@ -500,6 +503,7 @@ func execExit(c *core.Ctx, cs Case) {
 	if cs.Waiters > 0 {
 		time.Sleep(200 * time.Microsecond) // let them reach the Once
 	}
+	early := atomic.LoadInt64(&returnedEarly) // callers that returned while the first function was still running
 	close(gate)
 	select {
 	case <-done0:
@@ -537,4 +541,43 @@ func execExit(c *core.Ctx, cs Case) {
 	if !core.Eq(d.Fields(), want) {
 		c.Fail("fields R1.. differ from the invocation's results", fmt.Sprintf("%v after exit through %s", d.Fields(), cs.Exit))
 	}
+	if early != 0 {
+		c.Fail("Do returned before the invocation completed", fmt.Sprintf("%d callers had returned while the first function was still running (exit %s)", early, cs.Exit))
+	}
+	if cs.Exit == "return" && !core.Eq(ret0, res0) {
+		c.Fail("Do returned values other than those of the invocation", fmt.Sprintf("the first caller itself got %v, want %v", ret0, res0))
+	}
+	if cs.Exit != "return" && ret0 != nil {
+		c.Fail("Do returned although its function did not", fmt.Sprintf("exit %s, got %v", cs.Exit, ret0))
+	}
+	// ---- the observation as a Coq case: goroutine 0's function aborts (panic and Goexit are the same to
+	// sync.Once) or returns; every other goroutine makes one call with a returning function ----
+	if total+1 > 33 {
+		c.Count("oracle_only_large")
+		return
+	}
+	abort := "false"
+	if cs.Exit != "return" {
+		abort = "true"
+	}
+	progs := []string{core.List([]string{"(0," + core.ZList(res0) + "," + abort + ")"})}
+	rt := []string{"[]"}
+	if ret0 != nil {
+		rt[0] = core.ZListList([][]int{ret0})
+	}
+	for id := 1; id <= total; id++ {
+		r := make([]int, cs.Arity)
+		for j := range r {
+			r[j] = 100*id + j
+		}
+		progs = append(progs, core.List([]string{"(0," + core.ZList(r) + ",false)"}))
+		rt = append(rt, core.ZListList([][]int{rets[id-1]}))
+	}
+	mu.Lock()
+	rs := make([]string, len(who))
+	for i, id := range who {
+		rs[i] = core.Pair(core.Z(id), "0")
+	}
+	mu.Unlock()
+	c.Emit(strings.Join([]string{"Case", core.Z(cs.Arity), core.List(progs), core.List(rs), core.List(rt), core.Z(int(early))}, " "))
 }
